@@ -15,7 +15,7 @@ PROPS = {
                 "runIPServer listeners sharing the real timestamp store, gaps 10 ms..10 s (both sides of the 3 s interleave window), server clock offset from 0 to +-30 years with skew up to "
                 "+-100 ppm and steps between exchanges, worlds placed just before the 2036 era rollover, per-direction latency 0..21 ms plus long delays up to 2 s, drop/duplicate up to 30 %, "
                 "server-side missing/late kernel timestamps, optional ephemeral port reuse; non-trivial = at least two accepted exchanges were checked against ground truth; distinct = distinct event-log hash",
-        "required_probes": ["bound-checked", "interleaved-accepted", "basic-reply-to-interleaved-request", "measurement-failed", "near-era", "excluded-clock-step-inside-exchange", "scion-bound-checked", "scion-interleaved-accepted", "forwarded-without-timestamp"],
+        "required_probes": ["bound-checked", "interleaved-accepted", "basic-reply-to-interleaved-request", "measurement-failed", "near-era", "excluded-clock-step-inside-exchange", "scion-bound-checked", "scion-interleaved-accepted", "forwarded-without-timestamp", "client-kernel-tx-stamp-missing"],
         "components": {"real": ["core/client IPClient, MeasureClockOffsetIP", "core/server runIPServer, handleRequest, updateTXTimestamp", "net/udp (cmsg parsers, ReadTXTimestamp)", "net/ntp"],
                        "stub": dict(STUBS_COMMON, **{"kernel UDP stack": "simnet (sockets, SO_REUSEPORT group, control messages, error queue)"})},
         "assumptions": ["rounding allowance 16 ns (two truncating 2^-32 s conversions per timestamp and up to eight 1 ns receive-timestamp bumps)",
@@ -56,7 +56,7 @@ PROPS = {
         "assumptions": ["store capacity is lowered through a variable that replaces the uses of the constant tssCap at build time; the statement's 2^20 itself is only asserted by the thorough tier's capacity run",
                         "interleavings are explored at statement granularity; 'free of data races' is decided through atomicity (relation evaluated on snapshots at lock acquire/release), not with the race detector",
                         "snapshots are taken by the scheduler-side hooks without the lock"],
-        "required_probes": ["interleaved-served", "dropped-without-kernel-stamp", "kernel-stamp-recorded", "listener-identity-run", "cross-identity-request-served-basic", "same-instant-requests", "served-pair-is-kernel-pair"],
+        "required_probes": ["interleaved-served", "dropped-without-kernel-stamp", "kernel-stamp-recorded", "listener-identity-run", "cross-identity-request-served-basic", "same-instant-requests", "served-pair-is-kernel-pair", "echo-between-exchanges"],
     },
     "C07": {
         "level": "exploration",
@@ -88,7 +88,7 @@ PROPS = {
                 "path meta header, authenticator options of 0..40 bytes, timestamp options holding crafted control messages, SCMP types; CSPTP truncations with consistent length fields; NTS-KE records with lying lengths, "
                 "cookies of 0..2000 bytes, non-IP server names, short port and AEAD records; garbage instead of a TLS handshake). After each burst a well-formed sentinel request on the same socket must be answered "
                 "(listeners) or a clean exchange must still succeed (clients); non-trivial = at least two crafted inputs; distinct = distinct event-log hash",
-        "required_probes": ["sentinel-answered", "mode:ip-listener", "mode:scion-listener", "mode:csptp-listener", "mode:ntske-server", "mode:ip-client", "mode:scion-client", "mode:csptp-client", "mode:ntske-client", "sealed-request-odd-identifier", "ntske-client-over-scion", "sealed-request-hostile-encrypted-fields"],
+        "required_probes": ["sentinel-answered", "mode:ip-listener", "mode:scion-listener", "mode:csptp-listener", "mode:ntske-server", "mode:ip-client", "mode:scion-client", "mode:csptp-client", "mode:ntske-client", "sealed-request-odd-identifier", "ntske-client-over-scion", "sealed-request-hostile-encrypted-fields", "hostile-input-for-the-forwarder"],
         "components": {"real": ["core/server runIPServer, runSCIONServer (NTP, SCMP, forwarder), runCSPTPServerIP, handleKeyExchangeTLS", "core/client IPClient, SCIONClient, CSPTPClientIP", "net/ntske Fetcher, ReadData, cookies",
                                 "net/nts, net/ntp, net/csptp, net/udp (cmsg parsers), net/scion auth.go", "gopacket/slayers decoding"],
                        "stub": dict(STUBS_COMMON, **{"kernel UDP/TCP": "simnet", "hostile peers": "scripted"}),
@@ -108,7 +108,7 @@ PROPS = {
                 "with ISD-AS, host and ports exchanged); later runs (every third over SCION) sample first bytes, lengths 0..2048, source ports, network duplicates and missing / nanosecond-form receive and missing / late transmit kernel timestamps at the listeners; every 8th reply is fed back with a forged source; "
                 "non-trivial = at least one datagram answered and one ignored; distinct = distinct event-log hash",
         "exhaustive_part": "first byte x length class x trailer class (17920 cases) enumerated completely against the IP listeners when the batch has at least 187 runs and against the SCION listeners when it has at least 374 (quick tier: 600 runs)",
-        "required_probes": ["answered", "ignored", "nts-answered", "reflection-checked", "answered-over-scion", "mixed-address-families", "via-endhost-port", "from-well-known-port", "cookies-under-previous-key", "request-with-extension-headers"],
+        "required_probes": ["answered", "ignored", "nts-answered", "reflection-checked", "answered-over-scion", "mixed-address-families", "via-endhost-port", "from-well-known-port", "cookies-under-previous-key", "request-with-extension-headers", "udp-length-field-zero"],
         "components": {"real": ["core/server runIPServer, runSCIONServer, handleRequest", "net/ntp DecodePacket, ValidateRequest", "net/nts DecodePacket, ProcessRequest", "net/ntske cookies, Provider"],
                        "stub": dict(STUBS_COMMON, **{"kernel UDP stack": "simnet", "senders": "scripted datagram injector"})},
         "assumptions": ["over SCION the reply's path reversal is C13's clause; here its addressing (previous hop, ISD-AS, host, ports) is checked",
@@ -124,7 +124,7 @@ PROPS = {
                 "later runs (every 4th of them over SCION) sample bit flips, responses correctly re-sealed under the session key but with a longer / shorter / one-bit-different unique identifier, every 16-bit length word set to 0,1,3,4,-4,+4,0xffff,15,16,17, the client's own request reflected as a response, a genuine response to an earlier request replayed, and unmodified replays; "
                 "non-trivial = at least two tampered packets judged; distinct = distinct event-log hash",
         "exhaustive_part": "single-bit flips of one request and one response at pool level 8: 4032 cases, enumerated completely over IP when the batch has at least 32 runs and again over SCION when it has at least 64 (quick tier: 160 runs)",
-        "required_probes": ["genuine-accepted", "request-tamper-rejected", "response-tamper-rejected", "genuine-accepted-after-tampered", "unauthenticated-position", "resealed-other-identifier", "transport:scion", "zero-tail-cut", "genuine-copy-behind-forged-request"],
+        "required_probes": ["genuine-accepted", "request-tamper-rejected", "response-tamper-rejected", "genuine-accepted-after-tampered", "unauthenticated-position", "resealed-other-identifier", "transport:scion", "zero-tail-cut", "genuine-copy-behind-forged-request", "fields-inserted-before-authenticator"],
         "components": {"real": ["net/nts DecodePacket, ProcessRequest, ProcessResponse, authenticate", "net/ntske cookies (Decode, Decrypt), Provider", "core/server runIPServer, runSCIONServer (NTS branches)", "core/client IPClient, SCIONClient (NTS branches)", "NTS-KE over real TLS"],
                        "stub": dict(STUBS_COMMON, **{"kernel UDP/TCP": "simnet", "attacker": "scripted re-delivery of captured packets", "SCION border routers": "one relay router", "NTS-KE transport of the SCION client": "TLS on simulated TCP (production wiring: QUIC over SCION, not simulated)"})},
         "assumptions": ["a change is 'accepted' by a listener iff it answers at all (with or without NTS fields), by the client iff the tampered datagram is the one it had read last when it reported an offset",
@@ -154,7 +154,7 @@ PROPS = {
         "rule": "one run = 1..8 concurrent callers x 4..31 scripted Current()/Get(id) calls on the real ntske.Provider over up to "
                 "~30 virtual days (gaps drawn around 24h/2d/3d boundaries), statement-level yields inside the Provider methods in 3/4 of "
                 "the runs; non-trivial = at least two distinct keys were seen and at least one Get hit; distinct = distinct event-log hash",
-        "required_probes": ["current-generated", "current-reused", "get-hit", "get-expired", "get-unknown", "long-history", "local-zone-with-dst-switch", "key-exchange-after-stall"],
+        "required_probes": ["current-generated", "current-reused", "get-hit", "get-expired", "get-unknown", "long-history", "local-zone-with-dst-switch", "key-exchange-after-stall", "stalled-inside-a-call"],
         "components": {"real": ["net/ntske Provider (Current, Get, generateNext)", "crypto/rand via the process RNG",
                                 "every 64th run: core/server runNTSKEServerTLS / handleKeyExchangeTLS / newNTSKEMsg behind crypto/tls on the simulated stream, with a scripted client that stalls after the handshake",
                                 "every 2048th run: one provider over 66000..69000 renewals (about 185 virtual years)",
@@ -197,7 +197,7 @@ PROPS = {
                 "end-host forwarder on port 30041; SCMP echo and traceroute requests; packets for another L4 port delivered to the service port, to the end-host port, and addressed to the end-host port itself; "
                 "in 2/3 of the runs the router flips bits in transit (MAC, SPI, algorithm, payload, address header, traffic class, anywhere) in 10..60 % of the packets; "
                 "non-trivial = at least two replies judged at the router; distinct = distinct event-log hash",
-        "required_probes": ["ntp-reply-checked", "authenticated-exchange", "client-verified-response", "scmp-reply-checked", "not-forwarded-from-service-port", "forwarded-from-endhost-port", "not-forwarded-to-endhost-port", "measurement-failed", "served-unauthenticated-while-daemon-down", "mixed-address-families", "crafted-ntp-request", "listeners-started-by-the-service", "requests-delivered-to-the-endhost-port", "nts-with-packet-authentication"],
+        "required_probes": ["ntp-reply-checked", "authenticated-exchange", "client-verified-response", "scmp-reply-checked", "not-forwarded-from-service-port", "forwarded-from-endhost-port", "not-forwarded-to-endhost-port", "measurement-failed", "served-unauthenticated-while-daemon-down", "mixed-address-families", "crafted-ntp-request", "listeners-started-by-the-service", "requests-delivered-to-the-endhost-port", "nts-with-packet-authentication", "authenticator-of-odd-length", "forwarder-stayed-a-forwarder"],
         "components": {"real": ["core/server runSCIONServer (NTP, SCMP, forwarding branches); in a third of the authenticated runs started by core/server StartSCIONServer itself (sixteen listeners, their fetchers connected to the mock daemon)", "a quarter of the runs: NTS on top (net/nts, net/ntske provider, runNTSKEServerTLS, the client's fetcher over crypto/tls)", "core/client SCIONClient, MeasureClockOffsetSCION", "net/scion auth.go, Fetcher, DeriveHostHostKey", "scionproto slayers/spao/drkey (library)"],
                        "stub": dict(STUBS_COMMON, **{"SCION daemon": "mock daemon.Connector serving DRKeys derived with the real generic.Deriver", "border routers": "scripted relay that forwards, records and tampers", "kernel UDP": "simnet"}),
                        "not_run": ["one-hop and EPIC paths (empty and SCION paths only)"]},
@@ -213,7 +213,7 @@ PROPS = {
                 "writes one TLS record per piece; (b) six NTS-protected exchanges with losses whose datagrams are decoded and re-encoded in flight (NTP header identity, accessors, NTS field kinds/alignment vs the harness's walker); "
                 "(c) round trips of generated values through the real codecs: NTP headers (8/16-bit fields cycled with the run index), CSPTP messages and both TLVs with and without server state, plain and sealed server cookies with unequal key lengths, "
                 "NTS requests/responses at every pool level, NTS-KE records; non-trivial = at least two segmented decodes; distinct = distinct event-log hash",
-        "required_probes": ["segmentation-checked", "codecs-checked", "nts-datagram-monitored", "unaligned-cookie-request", "reused-destination-decoded", "response-beyond-usual-packet-size"],
+        "required_probes": ["segmentation-checked", "codecs-checked", "nts-datagram-monitored", "unaligned-cookie-request", "reused-destination-decoded", "response-beyond-usual-packet-size", "concurrent-packers"],
         "components": {"real": ["net/ntske ReadData, ExchangeMsg.Pack, cookies", "net/nts EncodePacket/DecodePacket/Process*", "net/ntp EncodePacket/DecodePacket", "net/csptp Encode*/Decode*", "core/server newNTSKEMsg", "crypto/tls"],
                        "stub": dict(STUBS_COMMON, **{"TCP": "simnet streams with explicit cut positions"})},
         "assumptions": ["the 'for all field values' quantifier of the codec clauses is covered by generation only (8/16-bit fields are swept across the runs of a batch, wider fields are random); only the segmentation clause is a schedule property",
@@ -249,7 +249,7 @@ PROPS = {
                 "clocks (success/error x before / 1ns before / at / 1ns after / after the deadline / on cancellation / never until released), "
                 "0..3 overlapping second collections, optionally a follow-up collection on the same collector; non-trivial = at least one clock; "
                 "distinct = distinct event-log hash",
-        "required_probes": ["returned-at-deadline", "returned-early", "overlap-refused", "second-round", "partial-round"],
+        "required_probes": ["returned-at-deadline", "returned-early", "overlap-refused", "second-round", "partial-round", "success-with-zero-timestamp"],
         "components": {"real": ["core/client ReferenceClockClient.MeasureClockOffsets, collectMeasurements", "context.WithTimeout timers (raw, virtual time)"],
                        "stub": dict(STUBS_COMMON, **{"reference clocks": "scripted client.ReferenceClock implementations"})},
         "assumptions": ["goroutine quiescence is measured with runtime.NumGoroutine against a baseline taken inside the bubble"],
@@ -274,7 +274,7 @@ PROPS = {
         "rule": "one run = 5..64 updates (offset over the whole int64 range with boundary values around 1 ms, weight in {0,1,3,3.0000001,4,49,50,100,149,150,1000,1e6}) of the real Pll at "
                 "gaps from 0 to 600 s on a simulated clock that records Step/Adjust, bumps its epoch on Step and is stepped from outside with probability 1/15 per update; "
                 "non-trivial = at least one Step or Adjust was requested; distinct = distinct event-log hash",
-        "required_probes": ["step", "adjust", "adjust-nonzero", "initial-step-decision", "epoch-restart", "real-clock-driver", "slew-ended-by-driver", "kernel-clock-stepped", "weight-not-finite", "outage-hours-to-weeks"],
+        "required_probes": ["step", "adjust", "adjust-nonzero", "initial-step-decision", "epoch-restart", "real-clock-driver", "slew-ended-by-driver", "kernel-clock-stepped", "weight-not-finite", "outage-hours-to-weeks", "most-negative-offset"],
         "components": {"real": ["core/sync/adjustments Pll", "base/timemath",
                                 "driver/clocks SystemClock (Step, Adjust and the goroutine that ends a slew, Sleep, Epoch, Now) in 1/3 of the runs"],
                        "stub": dict(STUBS_COMMON, **{"kernel time interface under the real driver": "simkern: clock_gettime, clock_adjtime (ADJ_SETOFFSET|ADJ_NANO, ADJ_FREQUENCY limited to 500 ppm), absolute timerfd on a simulated node clock with an oscillator error of up to 50 ppm"})},
